@@ -1592,7 +1592,8 @@ def make_world_externals(world_ref):
     externals = {
         'jax': jax, 'jax.numpy': jnp, 'equinox': eqx, 'optax': optax, 'typing': typing, 'jaxtyping': jaxtyping,
         'functools': NS("functools", partial=functools.partial, reduce=functools.reduce),
-        'dataclasses': NS("dataclasses", fields=dc_fields, InitVar=Subscriptable("InitVar")),
+        'dataclasses': NS("dataclasses", fields=dc_fields, InitVar=Subscriptable("InitVar"), MISSING=FieldSpec.MISSING,
+                          replace=lambda o, **k: o.replace_fields(k)),
         'abc': NS("abc", abstractmethod=lambda f: f, ABC=ExternalClass('ABC')),
         'warnings': NS("warnings", warn=_print, catch_warnings=lambda *a, **k: None, filterwarnings=_print),
         'operator': NS("operator", getitem=lambda a, b: a[b], add=lambda a, b: a + b, sub=lambda a, b: a - b, mul=lambda a, b: a * b,
